@@ -19,7 +19,11 @@ SPEC = {
     "theorems": [T + n for n in [
         "loop_shape_as_modelled", "pipelines_reads_covered", "one_per_pipeline_in_order",
         "named_selects_exactly", "independent_of_other_pipelines", "all_agrees_with_named",
-        "unknown_name_error", "no_pipeline_error", "no_pipeline_mode_single", "no_multiple_panic"]],
+        "unknown_name_error", "no_pipeline_error", "no_pipeline_mode_single", "no_multiple_panic",
+        "Typer.typer_shape_as_modelled", "Typer.typer_context_uses_covered", "Typer.typer_tables_sane",
+        "Typer.registry_ignores_pipelines", "Typer.typeCheck_pipelines_map", "Typer.typeCheck_names_nodup",
+        "Typer.typeCheck_delete_others", "Typer.independent_of_other_pipelines_file",
+        "Typer.whole_file_one_result_per_block", "Typer.front_error_independent_of_mode"]],
     "harness": "c17",
     "nontrivial": nontrivial,
     "rule": "generated shader files (0-4 pipelines: compute, vertex+pixel, mesh+pixel, task+mesh; shared and private entry "
